@@ -66,10 +66,10 @@ def shape_to_doc(forest, own_names):
     return [conv(t) for t in forest]
 
 
-def parse(doc_json_text):
+def parse(doc_json_text, verbose=False):
     from dznpy.json_ast import DznJsonAst  # pylint: disable=import-outside-toplevel
     with contextlib.redirect_stdout(io.StringIO()):
-        return DznJsonAst(doc_json_text).process()
+        return DznJsonAst(doc_json_text, verbose=verbose).process()
 
 
 def judge(case):
@@ -77,7 +77,7 @@ def judge(case):
     out = []
     try:
         text = json.dumps(D.to_json(doc, case.get('comment')))
-        fct = parse(text)
+        fct = parse(text, bool(case.get('verbose')))
         want, got = D.expected(doc), D.unparse(fct)
         cont, what = D.first_difference(want, got)
         if cont:
@@ -126,6 +126,28 @@ def payload_docs():
             for combo in itertools.product(bind_opts, repeat=nb):
                 yield [['system', 'S', [], [[f'i{k}', ['A', 'C'] if k else ['C']] for k in range(ni)],
                         [list(b) for b in combo]]]
+    # longer lists of every repeated element (3..6 of them, cycling through the variants above)
+    def cyc(opts, n, shift=0):
+        return [opts[(i * 5 + shift) % len(opts)] for i in range(n)]
+    for n in range(3, 7):
+        ports = [[f'p{i}', c[0], c[1], c[2]] for i, c in enumerate(cyc(port_opts, n))]
+        yield [['component', 'C', ports]]
+        yield [['foreign', 'C', list(reversed(ports))]]
+        yield [['system', 'C', ports, [[f'i{k}', ['A', 'C'] if k % 2 else ['C']] for k in range(n)],
+                [list(b) for b in cyc(bind_opts, n)]]]
+        events = [[f'e{i}', c[0], c[1], [[f'a{j}', ['T'] if j == 0 else ['A', 'T'], fd] for j, fd in enumerate(c[2])]]
+                  for i, c in enumerate(cyc(ev_opts, n, 3))]
+        yield [['interface', 'I', [], events]]
+        yield [['interface', 'I', [], [['e', 'in', ['void'], [[f'a{j}', ['T'], dirs[(j * 2) % 3]] for j in range(n)]],
+                                       ['o', 'out', ['void'], [[f'a{j}', ['T'], 'in'] for j in range(n)]]]]]
+        types = [['enum', f'E{i}', ['A', 'B'][:1 + i % 2]] if i % 2 == 0 else ['subint', f'S{i}', -i, i] for i in range(n)]
+        yield [['interface', 'I', types, [['e', 'in', ['E0'], []]]]]
+        yield [['enum', 'E', [f'F{i}' for i in range(n + 1)]]]
+        yield [['ns', ['A', 'B', 'C', 'D', 'E', 'F'][:n], [['enum', 'E', ['A']]]]]
+        nested = [['enum', 'E', ['A']]]
+        for ident in reversed(['A', 'B', 'C', 'D', 'E', 'F'][:n]):
+            nested = [['ns', [ident], nested + [['extern', 'T' + ident, 'int']]]]
+        yield nested
     # ranges, fields, data
     for lo, hi in itertools.product((-2, 0, 3), repeat=2):
         yield [['subint', 'S', lo, hi]]
@@ -163,6 +185,7 @@ def work(job):
                 if wrap:
                     case['comment'] = 'c'
                 _one(case, part)
+                _one(dict(case, verbose=True), part)
                 if k % 701 == 1:
                     part.sample(case)
     return part
@@ -225,8 +248,10 @@ def explore(ctx):
                 'arbitrary nesting and re-opening) x 2 naming sweeps, plus the payload space per kind at root and '
                 'inside namespace A.B; each shape generated exactly once; non-trivial = at least one declaration '
                 'expected; transitions = node-append construction steps')
-    ctx.bounds = {'nodes': max_nodes, 'payload': 'ports<=2, events<=2, formals<=2, nested types<=2, '
-                                                  'instances<=2, bindings<=2, fields<=3'}
+    ctx.bounds = {'nodes': max_nodes, 'payload': 'every combination of ports<=2, events<=2, formals<=2, nested types<=2, '
+                                                  'instances<=2, bindings<=2, fields<=3; lists of 3..6 elements with '
+                                                  'cycling variants; namespace names and nesting of 3..6 identifiers; '
+                                                  'each with and without verbose logging'}
     ctx.assumptions += ['documents are well-formed (malformed ones are C15)',
                         'oracle = independent printers in vf/docgen.py']
     ctx.min_outcomes = 4
